@@ -533,3 +533,130 @@ func c33Extras(c *Ctx) {
 	}
 	c.Check(n >= 17 && len(enc) >= 17, "R-TABLE", "pkix.Name", "attribute/field pairs enumerated", "-", fmt.Sprintf("%d decoder sites, %d encoder pairs", n, len(enc)))
 }
+
+func anyReturn(in ssa.Instruction, _ resolver) bool { _, ok := in.(*ssa.Return); return ok }
+
+// mustPassCall: every path of fn to a target passes a call of one of the named callees.
+func (c *Ctx) mustPassCall(rule string, fn *ssa.Function, label string, target func(ssa.Instruction, resolver) bool, callees ...string) {
+	if len(callsIn(fn, callees...)) == 0 {
+		c.Fail(rule, short(FuncName(fn)), label, c.W.Pos(fn.Pos()), "no call of "+strings.Join(callees, "/")+" in the function")
+		return
+	}
+	names := callees
+	c.Cut(CutSpec{Rule: rule, Fn: fn, Label: label, Target: target, MinTargets: -1, Cut: func(Fact) bool { return false }, Barrier: func(in ssa.Instruction) bool {
+		cc := callCommon(in)
+		if cc == nil {
+			return false
+		}
+		n := calleeName(cc)
+		for _, want := range names {
+			if n == expand(want) || n == want {
+				return true
+			}
+		}
+		return false
+	}})
+}
+
+func c14Extras(c *Ctx) {
+	w := c.W
+	if fn := w.Fn("z/x509/revocation/crl.CheckCRLForCert"); fn != nil {
+		c.mustPassCall("R-PRE", fn, "every successful lookup (cached or linear) first gathers the CRL-level extension information", SuccessReturn(1, nil), "z/x509/revocation/crl.gatherListExtensionInfo")
+	} else {
+		c.Undecided("R-PRE", "crl.CheckCRLForCert", "anchor", "-", "not found")
+	}
+}
+
+func c15Extras(c *Ctx) {
+	w := c.W
+	// OneCRL.Check reports "not listed" only after the blocked subject/key list was scanned to its end
+	if fn := w.Fn("(*z/x509/revocation/mozilla.OneCRL).Check"); fn != nil {
+		nilRet := func(in ssa.Instruction, res resolver) bool {
+			rt, ok := in.(*ssa.Return)
+			return ok && len(rt.Results) == 1 && isNilConst(res(unspill(rt, 0)))
+		}
+		c.Cut(CutSpec{Rule: "R-SCAN", Fn: fn, Label: "nil is returned only after the whole Blocked list was scanned", Target: nilRet, MinTargets: -1, Cut: func(f Fact) bool {
+			return f.Op == "ge" && f.Y != nil && Expr(f.Y) == "len(c.Blocked)"
+		}})
+		c.Cut(CutSpec{Rule: "R-SCAN", Fn: fn, Label: "nil is returned only after the issuer lookup missed or the issuer's serial list was scanned to its end", Target: nilRet, MinTargets: -1, Cut: func(f Fact) bool {
+			if f.Op == "nil" && strings.Contains(Expr(f.X), "FindIssuer(") {
+				return true
+			}
+			return f.Op == "ge" && f.Y != nil && strings.HasPrefix(Expr(f.Y), "len(") && strings.Contains(Expr(f.Y), "FindIssuer(") && strings.HasSuffix(Expr(f.Y), ".Entries)")
+		}})
+	} else {
+		c.Undecided("R-SCAN", "mozilla.OneCRL.Check", "anchor", "-", "not found")
+	}
+	// microsoft.parse: every certificate of the store yields an entry
+	if fn := w.Fn("z/x509/revocation/microsoft.parse"); fn != nil {
+		for _, in := range callsIn(fn, "z/x509.ParseCertificate") {
+			var hdr *ssa.BasicBlock
+			for _, l := range natLoops(fn) {
+				if l.blocks[in.Block()] && (hdr == nil || hdr.Dominates(l.header)) {
+					hdr = l.header
+				}
+			}
+			if hdr == nil {
+				c.Fail("R-SCAN", "microsoft.parse", "certificates are parsed in a loop over the store", w.InstrPos(in), "")
+				continue
+			}
+			h := hdr
+			c.Sites++
+			c.Cut(CutSpec{Rule: "R-SCAN", Fn: fn, Label: "every parsed certificate of the store is recorded before the next one is taken (none is skipped)", StartAfter: in, MinTargets: -1,
+				Target: func(i2 ssa.Instruction, _ resolver) bool { return i2 == h.Instrs[0] },
+				Barrier: func(i2 ssa.Instruction) bool {
+					st, ok := i2.(*ssa.Store)
+					if !ok {
+						return false
+					}
+					fa, ok := st.Addr.(*ssa.FieldAddr)
+					return ok && fieldName(fa) == "IssuerList.Entries"
+				}, Cut: func(Fact) bool { return false }})
+		}
+	} else {
+		c.Undecided("R-SCAN", "microsoft.parse", "anchor", "-", "not found")
+	}
+}
+
+func c17Extras(c *Ctx) {
+	w := c.W
+	if fn := w.Fn("(*z/ct/scanner.Scanner).processEntry"); fn != nil {
+		n := 0
+		for _, in := range callsIn(fn, "sync/atomic.AddInt64") {
+			if fa, ok := callCommon(in).Args[0].(*ssa.FieldAddr); ok && fieldName(fa) == "Scanner.certsProcessed" {
+				n++
+				call := in
+				c.Cut(CutSpec{Rule: "R-ONCE", Fn: fn, Label: "every entry is counted in certsProcessed whichever way processEntry returns", Target: anyReturn, MinTargets: -1,
+					Barrier: func(i2 ssa.Instruction) bool { return i2 == call }, Cut: func(Fact) bool { return false }})
+				c.Check(loopMark(in.Block()) == "once", "R-ONCE", short(FuncName(fn)), "the count is incremented once per entry", w.InstrPos(in), "")
+			}
+		}
+		c.Check(n == 1, "R-ONCE", short(FuncName(fn)), "certsProcessed increment found", w.Pos(fn.Pos()), fmt.Sprint(n))
+	} else {
+		c.Undecided("R-ONCE", "scanner.processEntry", "anchor", "-", "not found")
+	}
+}
+
+func c23Extras(c *Ctx) {
+	w := c.W
+	// the separator scan of EME-PKCS1-v1_5 decoding starts right after the 00 02 header
+	if fn := w.Fn("z/rsa.decryptPKCS1v15"); fn != nil {
+		ok := false
+		det := ""
+		for _, b := range fn.Blocks {
+			for _, in := range b.Instrs {
+				ia, isIA := in.(*ssa.IndexAddr)
+				if !isIA {
+					continue
+				}
+				if ph, isPhi := ia.Index.(*ssa.Phi); isPhi && isLoopHeader(ph.Block()) {
+					det = Expr(ph)
+					if det == "φ((↺+1)|2)" || det == "φ(2|(↺+1))" {
+						ok = true
+					}
+				}
+			}
+		}
+		c.Check(ok, "R-VSET", "rsa.decryptPKCS1v15", "the zero-separator scan covers EM[2:] (a zero inside the first eight padding octets is seen)", w.Pos(fn.Pos()), det)
+	}
+}
